@@ -1,7 +1,9 @@
 import Glom.Model.C06
 /-
   C06 — reference: a call's outcome is a function of (call, PATH_STAR, registrations) only
-  (`refHistory`: every call run with no caches), and the cache invariant.
+  (`refHistory`: every call run with no caches), and the cache invariant.  For `Vars`: an
+  evaluation's reads are those of a value-level dict `base ∪ defaults` updated by the evaluation's
+  own writes (`refVars`), and the dict object the spec holds is not written.
 -/
 namespace Glom.C06
 
@@ -16,18 +18,23 @@ def HInv (compute : String × String → Option H) (hc : HCache H) : Prop :=
   ∀ k h, (k, h) ∈ hc → compute k = some h
 
 def WorldInv (parse : Bool → String → P) (compute : R → String × String → Option H) (w : World P H R) : Prop :=
-  PathInv parse w.pc ∧ HInv (compute w.reg) w.hc
+  PathInv parse w.pc ∧ ∀ rg, HInv (compute (w.reg rg)) (w.hc rg)
 
 /-- reference semantics of a history: caches do not exist -/
 def refHistory (parse : Bool → String → P) (compute : R → String × String → Option H) :
-    Bool → R → List (HOp P H O R) → List (Option O)
+    Bool → (Nat → R) → List (HOp P H O R) → List (Option O)
   | _, _, [] => []
   | star, reg, .call strat fuel :: rest =>
     runPure parse compute strat star reg fuel [] :: refHistory parse compute star reg rest
   | _, reg, .setStar b :: rest => refHistory parse compute b reg rest
-  | star, reg, .register f :: rest => refHistory parse compute star (f reg) rest
+  | star, reg, .register rg f :: rest => refHistory parse compute star (setAt reg rg (f (reg rg))) rest
 
 /-- size bound of the path cache: at most `_MAX_CACHE + 1` entries per flag -/
 def SizeOK (maxCache : Nat) (c : PathCache P) : Prop := ∀ b, (c.get b).length ≤ maxCache + 1
+
+/-- reference for one evaluation of a spec holding `Vars(base, **defaults)`: no object identity,
+    the holder starts as the *value* `dict(base, **defaults)` every time -/
+def refVars {V : Type} (base defaults : VDict V) (ops : List (VOp V)) : List (Option V) :=
+  runVOpsPure (defaults.foldl (fun d kv => dSet d kv.1 kv.2) base) ops
 
 end Glom.C06
